@@ -28,6 +28,10 @@ import (
 
 type replayInput struct {
 	Source string `json:"source"`
+	// stream `rerun` only: names of the host inputs and, per run, the index of each input's value in inputPool
+	Names  []string `json:"input_names,omitempty"`
+	First  []int    `json:"first_run_pool_index,omitempty"`
+	Second []int    `json:"second_run_pool_index,omitempty"`
 }
 
 var (
@@ -66,35 +70,7 @@ func realOutcome(src string, inputs []inputVar) (string, bool) {
 			out = "cerr " + lib.HexS(msg)
 			return
 		}
-		ctx, cancel := context.WithTimeout(context.Background(), 5*time.Second)
-		defer cancel()
-		if err := c.RunContext(ctx); err != nil {
-			msg := err.Error()
-			if err == context.DeadlineExceeded {
-				out = "timeout"
-				return
-			}
-			if strings.HasPrefix(msg, "Runtime Error: ") {
-				msg = strings.TrimPrefix(msg, "Runtime Error: ")
-				if i := strings.Index(msg, "\n"); i >= 0 {
-					msg = msg[:i]
-				}
-				out = "rerr " + lib.HexS(msg)
-				return
-			}
-			out = "panic " + lib.HexS(msg)
-			return
-		}
-		vars := c.GetAll()
-		parts := make([]string, 0, len(vars))
-		for _, v := range vars {
-			parts = append(parts, "("+lib.HexS(v.Name())+" "+lib.Canon(v.Object())+")")
-		}
-		sort.Strings(parts)
-		out = "ok"
-		if len(parts) > 0 {
-			out += " " + strings.Join(parts, " ")
-		}
+		out = runOutcome(c)
 	})
 	if g.Panicked {
 		return "escaped-panic " + lib.HexS(g.PanicVal), true
@@ -105,11 +81,138 @@ func realOutcome(src string, inputs []inputVar) (string, bool) {
 	return out, true
 }
 
+// runOutcome runs a compiled program once and renders its outcome (error class + first line, or every global).
+func runOutcome(c *tengo.Compiled) string {
+	ctx, cancel := context.WithTimeout(context.Background(), 5*time.Second)
+	defer cancel()
+	if err := c.RunContext(ctx); err != nil {
+		msg := err.Error()
+		if err == context.DeadlineExceeded {
+			return "timeout"
+		}
+		if strings.HasPrefix(msg, "Runtime Error: ") {
+			msg = strings.TrimPrefix(msg, "Runtime Error: ")
+			if i := strings.Index(msg, "\n"); i >= 0 {
+				msg = msg[:i]
+			}
+			return "rerr " + lib.HexS(msg)
+		}
+		return "panic " + lib.HexS(msg)
+	}
+	vars := c.GetAll()
+	parts := make([]string, 0, len(vars))
+	for _, v := range vars {
+		parts = append(parts, "("+lib.HexS(v.Name())+" "+lib.Canon(v.Object())+")")
+	}
+	sort.Strings(parts)
+	out := "ok"
+	if len(parts) > 0 {
+		out += " " + strings.Join(parts, " ")
+	}
+	return out
+}
+
+// rerunOutcome: ONE Compiled, run with the inputs `first` (whatever happens), then Set the inputs `second` and
+// run again; the outcome of the second run. The property speaks about compiling and running a program with given
+// inputs: what an earlier run of the same compiled object did (a run-time error, values left in globals, state kept
+// in a VM) must not show, because the program assigns every variable before it reads it.
+func rerunOutcome(src string, first, second []inputVar) (string, string) {
+	var out, firstOut string
+	g := lib.Guard(20*time.Second, func() {
+		s := tengo.NewScript([]byte(src))
+		for _, in := range first {
+			if err := s.Add(in.Name, in.mk()); err != nil {
+				out = "add-error " + err.Error()
+				return
+			}
+		}
+		c, err := s.Compile()
+		if err != nil {
+			out = "cerr"
+			return
+		}
+		firstOut = runOutcome(c)
+		for _, in := range second {
+			if err := c.Set(in.Name, in.mk()); err != nil {
+				out = "set-error " + err.Error()
+				return
+			}
+		}
+		out = runOutcome(c)
+	})
+	if g.Panicked {
+		return "escaped-panic " + lib.HexS(g.PanicVal), firstOut
+	}
+	if g.TimedOut {
+		return "hang", firstOut
+	}
+	return out, firstOut
+}
+
+// checkRerun (stream `rerun`): the second run of one Compiled with the inputs of the fresh run must give the fresh
+// run's outcome `real`, whatever inputs the first run had (often ill-typed for the program: a failing first run).
+func checkRerun(r *lib.RNG, src string, inputs []inputVar, real string) {
+	if len(inputs) == 0 || strings.HasPrefix(real, "cerr") || real == "perr" || real == "timeout" || strings.HasPrefix(real, "add-error") {
+		return
+	}
+	ri := replayInput{Source: src}
+	first := make([]inputVar, len(inputs))
+	for i, in := range inputs {
+		pi := r.Intn(len(inputPool))
+		first[i] = inputVar{Name: in.Name, Ty: inputPool[pi].ty, mk: inputPool[pi].mk, Pool: pi}
+		ri.Names = append(ri.Names, in.Name)
+		ri.First = append(ri.First, pi)
+		ri.Second = append(ri.Second, in.Pool)
+	}
+	rerunCompare(ri, first, inputs, real)
+}
+
+func rerunCompare(ri replayInput, first, second []inputVar, real string) {
+	var desc []string
+	for _, in := range first {
+		desc = append(desc, "("+lib.HexS(in.Name)+" "+lib.Canon(in.mk())+")")
+	}
+	got, firstOut := rerunOutcome(ri.Source, first, second)
+	if firstOut == "timeout" || got == "timeout" {
+		return
+	}
+	res.Count("rerun", ri.Source+strings.Join(desc, " "), true)
+	res.Dist("rerun:first-run-" + strings.Fields(firstOut + " ?")[0])
+	if normalize(got) != normalize(real) {
+		res.Violate(lib.Violation{Signature: "second-run-differs-from-fresh-run:" + strings.Fields(real)[0] + "/" + strings.Fields(got + " ?")[0], Stream: "rerun",
+			Input: ri, Observed: clip(got, 1500) + "   [first run, inputs " + strings.Join(desc, " ") + ": " + clip(firstOut, 200) + "]", Expected: clip(real, 1500),
+			Oracle: "a fresh Script with the same inputs (the program assigns every variable before reading it, so an earlier run of the same Compiled cannot matter)"})
+	}
+}
+
+// replayRerun re-runs a recorded `rerun` case.
+func replayRerun(ri replayInput) {
+	var first, second []inputVar
+	for i, n := range ri.Names {
+		if i >= len(ri.First) || i >= len(ri.Second) || ri.First[i] >= len(inputPool) || ri.Second[i] >= len(inputPool) {
+			return
+		}
+		first = append(first, inputVar{Name: n, Ty: inputPool[ri.First[i]].ty, mk: inputPool[ri.First[i]].mk, Pool: ri.First[i]})
+		second = append(second, inputVar{Name: n, Ty: inputPool[ri.Second[i]].ty, mk: inputPool[ri.Second[i]].mk, Pool: ri.Second[i]})
+	}
+	real, _ := realOutcome(ri.Source, second)
+	rerunCompare(ri, first, second, real)
+}
+
+// rerunCorpus: closed forms of the `rerun` stream (pool indexes: 9 = [1,2,3], 16 = [[1,2],{x:1.5},"s"], 0 = 42, 5 = "host héllo").
+var rerunCorpus = []replayInput{
+	{Source: "total := 0\nfor x in items { total += x }\n", Names: []string{"items"}, First: []int{16}, Second: []int{9}},
+	{Source: "f := func(a) { return a * 2 }\nout := f(n)\n", Names: []string{"n"}, First: []int{5}, Second: []int{0}},
+	{Source: "out := 10 / d\nlast := out + 1\n", Names: []string{"d"}, First: []int{5}, Second: []int{0}},
+	{Source: "m := {a: 1}\nm.b = v[0]\nout := m.b\n", Names: []string{"v"}, First: []int{0}, Second: []int{9}},
+}
+
 // inputVar is a host-provided variable: mk builds a FRESH tengo object each time (runs mutate them).
 type inputVar struct {
 	Name string
 	Ty   lib.Ty
 	mk   func() tengo.Object
+	Pool int // index in inputPool
 }
 
 func ints(vs ...int64) []tengo.Object {
@@ -150,7 +253,10 @@ var inputPool = []struct {
 	}},
 }
 
+var rerunRNG = lib.NewRNG(20240923)
+
 func checkProgram(src string, feats map[string]int, inputs ...inputVar) {
+	src0 := src
 	f, _, err := lib.ParseSource("(main)", []byte(src))
 	if err != nil {
 		res.Count("spec", src, false)
@@ -198,7 +304,7 @@ func checkProgram(src string, feats map[string]int, inputs ...inputVar) {
 		res.Dist("skip:" + clip(ans, 60))
 		return
 	case "bad-op":
-		res.Disagree(lib.Disagreement{Stream: "spec", Input: replayInput{src}, Model: ans, Impl: real})
+		res.Disagree(lib.Disagreement{Stream: "spec", Input: replayInput{Source: src}, Model: ans, Impl: real})
 		return
 	}
 	if real == "timeout" {
@@ -209,10 +315,11 @@ func checkProgram(src string, feats map[string]int, inputs ...inputVar) {
 	nontrivial := len(feats) >= 5
 	res.Count("spec", src, nontrivial)
 	res.Sample(map[string]interface{}{"source": src, "outcome": clip(real, 160)}, 3)
+	checkRerun(rerunRNG, src0, inputs, real)
 	if normalize(ans) != normalize(real) {
 		// the reference semantics is the oracle of C01
 		res.Violate(lib.Violation{Signature: "differs-from-reference-semantics:" + strings.Fields(real)[0] + "/" + cls, Stream: "spec",
-			Input: replayInput{src}, Observed: clip(real, 1500), Expected: clip(ans, 1500),
+			Input: replayInput{Source: src}, Observed: clip(real, 1500), Expected: clip(ans, 1500),
 			Oracle: "Lean reference interpreter Tengo.Model.Spec (docs/tutorial.md, operators.md, runtime-types.md, builtins.md)"})
 	}
 }
@@ -227,7 +334,7 @@ func checkComp(src string, inputs []inputVar) {
 	if len(names) > 0 {
 		shown = compInputsPrefix + strings.Join(names, ",") + "\n" + src
 	}
-	if err := lib.CompStream(res, drv, src, names, replayInput{shown}); err != nil {
+	if err := lib.CompStream(res, drv, src, names, replayInput{Source: shown}); err != nil {
 		fatal(err)
 	}
 }
@@ -265,7 +372,7 @@ func checkVM(src string, inputs []inputVar) {
 	if h%3 == 0 {
 		budgets = append(budgets, int64(1+h%40))
 	}
-	if err := lib.VMStream(res, drv, c, src, mk, budgets, func(int64) interface{} { return replayInput{src} }); err != nil {
+	if err := lib.VMStream(res, drv, c, src, mk, budgets, func(int64) interface{} { return replayInput{Source: src} }); err != nil {
 		fatal(err)
 	}
 }
@@ -424,7 +531,7 @@ func checkF0(src string) {
 		// a compile error (e.g. redeclaration) is outside the fragment: the model must say so
 		res.Count("f0", src, false)
 		if ans != "unsupported" {
-			res.Disagree(lib.Disagreement{Stream: "f0", Input: replayInput{src}, Model: clip(ans, 300), Impl: "compile error: " + err.Error()})
+			res.Disagree(lib.Disagreement{Stream: "f0", Input: replayInput{Source: src}, Model: clip(ans, 300), Impl: "compile error: " + err.Error()})
 		}
 		return
 	}
@@ -454,7 +561,7 @@ func checkF0(src string) {
 	}
 	res.Count("f0", src, len(c.BC.MainFunction.Instructions) > 20)
 	if got != impl {
-		res.Disagree(lib.Disagreement{Stream: "f0", Input: replayInput{src}, Model: clip(ans, 600), Impl: clip(impl, 600)})
+		res.Disagree(lib.Disagreement{Stream: "f0", Input: replayInput{Source: src}, Model: clip(ans, 600), Impl: clip(impl, 600)})
 	}
 }
 
@@ -501,6 +608,10 @@ func main() {
 		}
 		checkComp(bc.Src, ins)
 	}
+	rerunRNG = lib.NewRNG(f.Seed + 7777)
+	for _, ri := range rerunCorpus {
+		replayRerun(ri)
+	}
 	rng := lib.NewRNG(f.Seed)
 	n := f.Scale(1500, 60000)
 	for i := 0; i < n; i++ {
@@ -509,8 +620,9 @@ func main() {
 		var inputs []inputVar
 		if r.Chance(1, 3) {
 			for k := 1 + r.Intn(3); k > 0; k-- {
-				c := lib.Pick(r, inputPool)
-				in := inputVar{Name: fmt.Sprintf("in%d", k), Ty: c.ty, mk: c.mk}
+				pi := r.Intn(len(inputPool))
+				c := inputPool[pi]
+				in := inputVar{Name: fmt.Sprintf("in%d", k), Ty: c.ty, mk: c.mk, Pool: pi}
 				inputs = append(inputs, in)
 				g.DeclareInput(in.Name, in.Ty)
 			}
@@ -573,10 +685,14 @@ func replay(path string) {
 			// a recorded `comp` case with host inputs: only the names matter to the compiler
 			if i := strings.Index(v.Input.Source, "\n"); i >= 0 {
 				names := strings.Split(strings.TrimPrefix(v.Input.Source[:i], compInputsPrefix), ",")
-				if err := lib.CompStream(res, drv, v.Input.Source[i+1:], names, replayInput{v.Input.Source}); err != nil {
+				if err := lib.CompStream(res, drv, v.Input.Source[i+1:], names, replayInput{Source: v.Input.Source}); err != nil {
 					fatal(err)
 				}
 			}
+			continue
+		}
+		if len(v.Input.Names) > 0 {
+			replayRerun(v.Input)
 			continue
 		}
 		if v.Input.Source != "" {
